@@ -85,6 +85,12 @@ PROPS = {
             "sparse tables are given distinct indices; relabel windows do not overlap; points have exactly num_vars coordinates (>= for multivariate evaluate)",
             "the 0-variable zero representation is accepted wherever the expected table is identically zero (DESIGN §7)"],
     },
+    "C14": {
+        "runs": [{"bin": "mon_par", "args": ["--emit", "{logs}/C14.{tier}.digests.json"]},
+                 {"bin": "mon_par", "variant": "par", "args": ["--compare", "{logs}/C14.{tier}.digests.json"]}],
+        "assumptions": BASE_ASSUME + ["the serial build's outputs are the reference (their correctness is the subject of C01-C08, C17); outputs are compared through their canonical uncompressed serialization",
+                                      "rayon's internal interleavings are perturbed (pool sizes, input/threshold alignments, background CPU hog) but cannot be enumerated or observed"],
+    },
     "C15": {
         "runs": [{"bin": "mon_ff"}],
         "assumptions": BASE_ASSUME,
